@@ -149,7 +149,7 @@ theorem newObject_wf {g : Graph} (wf : TreeWF g) {p : Nat} {pn : Node} (id : Str
   have hlen : (newObject g p id).nodes.length = L + 1 := by simp [newObject, setNode_length, L]
   -- lookup in the new arena
   have hget : ∀ j, (newObject g p id).nodes[j]? =
-      if j < L then (if j = p then g.nodes[j]?.map upd else g.nodes[j]?) else if j = L then some { id := id, parent := p, label := id } else none := by
+      if j < L then (if j = p then g.nodes[j]?.map upd else g.nodes[j]?) else if j = L then some { id := id, parent := p, label := idVal id } else none := by
     intro j
     simp only [newObject]
     by_cases hj : j < L
@@ -220,7 +220,7 @@ theorem newObject_wf {g : Graph} (wf : TreeWF g) {p : Nat} {pn : Node} (id : Str
             rw [hget, if_pos hclt, if_pos hcp', hcn]; rfl
           · exact ⟨cn, by rw [hget]; simp [hclt, hcp', hcn], hcp, hck, hc0⟩
         · subst hc; subst hk
-          refine ⟨{ id := id, parent := p, label := id }, by rw [hget]; simp, hjp.symm, rfl, wf.nonempty⟩
+          refine ⟨{ id := id, parent := p, label := idVal id }, by rw [hget]; simp, hjp.symm, rfl, wf.nonempty⟩
       · by_cases hjp : j = p
         · simp only [hjp, if_true] at hj; rw [hp] at hj; simp at hj; subst hj
           have wp := wf.node p pn hp
